@@ -231,6 +231,21 @@ Section LogParseP.
     destruct (jlookup m' kvs) as [[v'|q'|]|]; [|destruct I|destruct I|destruct I]. destruct I as [E|[]]. injection E as -> _. contradiction.
   Qed.
 
+  Lemma dedup_fresh ms : forall seen, NoDup ms -> (forall m, In m ms -> ~ In m seen) -> dedup seen ms = ms.
+  Proof.
+    induction ms as [|m r IH]; intros seen ND Hd; [reflexivity|]. cbn [dedup].
+    destruct (mem m seen) eqn:M.
+    - apply mem_In in M. exfalso. exact (Hd m (or_introl eq_refl) M).
+    - inversion ND as [|? ? Hm Hr]; subst. rewrite IH; [reflexivity|exact Hr|].
+      intros x Ix [<-|Is]; [contradiction|]. exact (Hd x (or_intror Ix) Is).
+  Qed.
+
+  (* the repaired loop and the pinned loop agree when no tracked name is listed twice *)
+  Lemma json_records_pinned_nodup ms kvs : NoDup ms -> json_records_pinned rfc3339 ms kvs = json_records ms kvs.
+  Proof.
+    intro ND. unfold LogParse.json_records, json_records_pinned. rewrite (dedup_fresh ms [] ND); [reflexivity|]. intros ? _ [].
+  Qed.
+
   Lemma json_timestamp_cases kvs :
     match jlookup timestamp_key kvs with
     | Some (JString s) => json_timestamp rfc3339 kvs = if nonempty s && rfc3339 s then TsText s else TsText zero_time
@@ -377,6 +392,17 @@ Section LogParseP.
 
 End LogParseP.
 
+Lemma fallback_both obj rest found :
+  ((forall x, In x found -> mname x <> obj) -> fallback (obj :: rest) found = [MLog (TsText zero_time) obj unavailable]) /\
+  ((exists x, In x found /\ mname x = obj) -> fallback (obj :: rest) found = found).
+Proof. split; [apply fallback_missing|apply fallback_present]. Qed.
+
+Lemma timestamp_text_both filt (matches : filt -> str -> list (list str)) rfc3339 ms fs l :
+  ((exists a b, l = a ++ space :: b /\ ~ In space a /\ rfc3339 a = true /\ line_timestamp rfc3339 l = a) \/
+   ((forall a b, l = a ++ space :: b -> ~ In space a -> rfc3339 a = false) /\ line_timestamp rfc3339 l = zero_time)) /\
+  (forall x, In x (spec_line filt matches rfc3339 ms fs l) -> ts x = TsText (line_timestamp rfc3339 l) /\ In (mname x) ms).
+Proof. split; [apply timestamp_text|apply spec_line_ts]. Qed.
+
 (* ------------------------------------------------------------------ epoch timestamps *)
 
 Lemma parse_int64_signed s v : parse_signed s = Some v -> in_int64 v = true -> parse_int64 s = Some v.
@@ -413,4 +439,14 @@ Lemma split_lines_spec content :
 Proof.
   unfold split_lines. split; [apply join_split_on|]. split; [apply split_on_no_sep|].
   intros ls NE F <-. symmetry. now apply split_on_unique.
+Qed.
+
+(* the pinned loop reports a tracked name that is listed twice twice *)
+Lemma json_dup_refuted :
+  exists ms kvs, ~ NoDup (json_records_pinned (fun _ => false) ms kvs) /\
+                 json_records_pinned (fun _ => false) ms kvs <> json_records (fun _ => false) ms kvs.
+Proof.
+  exists [B "loss"; B "acc"; B "acc"], [(B "acc", JString (B "0.9")); (B "loss", JString (B "0.3"))]. split.
+  - vm_compute. intro H. inversion H as [|? ? _ H1]. inversion H1 as [|? ? N _]. apply N. now left.
+  - vm_compute. discriminate.
 Qed.
